@@ -1508,7 +1508,10 @@ private:
           continue;
         }
         std::vector<std::uint8_t> value(valLen);
-        std::memcpy(value.data(), ptr, valLen);
+        if (valLen > 0) // empty value: value.data() may be null, which memcpy must not be given
+        {
+          std::memcpy(value.data(), ptr, valLen);
+        }
         _kv[key] = std::move(value);
         _expiry.erase(key); // plain set clears any prior expiry (Redis-style)
       }
@@ -1533,7 +1536,10 @@ private:
           continue; // corrupt → drop
         }
         std::vector<std::uint8_t> value(valLen);
-        std::memcpy(value.data(), ptr, valLen);
+        if (valLen > 0) // empty value: value.data() may be null, which memcpy must not be given
+        {
+          std::memcpy(value.data(), ptr, valLen);
+        }
         // Applied regardless of `now`: whether the key is expired is decided
         // after the whole log has been replayed (a later 'X' may extend it).
         _kv[key] = std::move(value);
